@@ -70,6 +70,16 @@ C09_BatchEqSeq(X, K) ==
 \* A batch/sequential difference is excused only if it is confined to CFG edges
 \* and every differing edge is explained by an open CFG finding (the two runs
 \* hit, or avoid, the same defect at different moments).
+\* The one-at-a-time run re-uses the original anchors (inside a block by descending
+\* offset, so that no re-anchoring is needed).  Two insertions at the SAME point are
+\* then applied in reverse registration order; that reproduces the batch unless the
+\* patch applied first starts with a label (the second insertion at "offset 0 / the
+\* same offset" goes behind a start label).  Such batches are not comparable this way.
+SeqComparable(t) ==
+  \A i, j \in DOMAIN t.reqs :
+     (i # j /\ t.reqs[i].op \in {"ins", "rep"} /\ t.reqs[j].op \in {"ins", "rep"}
+      /\ t.reqs[i].u = t.reqs[j].u /\ t.reqs[i].off = t.reqs[j].off)
+     => \A l \in Range(t.reqs[i].patch.labels) \cup Range(t.reqs[j].patch.labels) : l.o # 0
 KfBatch(X, K) ==
   LET a == AllFacts(X)
       b == AllFacts(Seq2(X))
